@@ -91,12 +91,16 @@ type sleepPred struct {
 // modelSleep is the reference model of one (time:sleep d [:max m]) call,
 // written from docs/lang.md "Sleep length" and the property text.
 func modelSleep(s *sleepState, c SleepCall) sleepPred {
-	hasDeadline := s.kind == "deadline" || s.kind == "deadline-nodone" || s.kind == "deadline-cancel"
+	// "deadline-lag": the context reports a deadline, has no Done channel and
+	// its Err stays nil after the deadline (a wrapper whose cancellation lags
+	// its deadline); only the sleep's own deadline arithmetic bounds it
+	lag := s.kind == "deadline-lag"
+	hasDeadline := s.kind == "deadline" || s.kind == "deadline-nodone" || s.kind == "deadline-cancel" || lag
 	hasCancel := (s.kind == "cancel" || s.kind == "deadline-cancel") && s.T > 0
 	if s.dead || s.kind == "cancelled" {
 		return sleepPred{classes: []string{"context-cancelled"}, dead: true}
 	}
-	if hasDeadline && s.D <= s.now {
+	if hasDeadline && !lag && s.D <= s.now {
 		return sleepPred{classes: []string{"context-cancelled"}, dead: true, tie: s.D == s.now}
 	}
 	if hasCancel && s.T <= s.now {
@@ -136,6 +140,9 @@ func modelSleep(s *sleepState, c SleepCall) sleepPred {
 		if rem < d {
 			return sleepPred{classes: []string{"context-cancelled"}} // refused immediately; nothing was cancelled
 		}
+		if rem == d && lag {
+			return sleepPred{classes: []string{"nil"}, elapsed: d}
+		}
 		if rem == d {
 			if hasCancel && s.T-s.now < d {
 				return sleepPred{classes: []string{"context-cancelled"}, elapsed: s.T - s.now, dead: true}
@@ -159,10 +166,10 @@ func modelSleep(s *sleepState, c SleepCall) sleepPred {
 
 func (e *clockEngine) Gen(r *Rand, tier string) any {
 	c := &ClockCase{}
-	kinds := []string{"none", "background", "cancel", "deadline", "deadline-nodone", "deadline-cancel", "cancelled"}
-	w := []int{3, 3, 6, 6, 3, 4, 1}
+	kinds := []string{"none", "background", "cancel", "deadline", "deadline-nodone", "deadline-cancel", "cancelled", "deadline-lag"}
+	w := []int{3, 3, 6, 6, 3, 4, 1, 3}
 	if e.name == "sleepcancel" {
-		w = []int{0, 0, 8, 2, 1, 4, 0}
+		w = []int{0, 0, 8, 2, 1, 4, 0, 0}
 	}
 	c.CtxKind = kinds[r.Pick(w)]
 	c.TRO = PickStr(r, []string{"", "", "debugger"})
@@ -176,7 +183,7 @@ func (e *clockEngine) Gen(r *Rand, tier string) any {
 	switch c.CtxKind {
 	case "cancel":
 		c.CancelNs = pickT()
-	case "deadline", "deadline-nodone":
+	case "deadline", "deadline-nodone", "deadline-lag":
 		c.DeadlineNs = pickT()
 	case "deadline-cancel":
 		c.DeadlineNs = pickT()
@@ -230,13 +237,16 @@ func (e *clockEngine) Gen(r *Rand, tier string) any {
 
 // ------------------------------------------------------------------- run
 
-type ddlCtx struct{ d time.Time }
+type ddlCtx struct {
+	d   time.Time
+	lag bool // Err stays nil after the deadline
+}
 
 func (c ddlCtx) Deadline() (time.Time, bool) { return c.d, true }
 func (c ddlCtx) Done() <-chan struct{}       { return nil }
 func (c ddlCtx) Value(any) any               { return nil }
 func (c ddlCtx) Err() error {
-	if !time.Now().Before(c.d) {
+	if !c.lag && !time.Now().Before(c.d) {
 		return context.DeadlineExceeded
 	}
 	return nil
@@ -314,7 +324,9 @@ func (e *clockEngine) runInBubble(c *ClockCase, st *Stats) *Violation {
 		ctx = cctx
 		stops = append(stops, cancel)
 	case "deadline-nodone":
-		ctx = ddlCtx{start.Add(time.Duration(c.DeadlineNs))}
+		ctx = ddlCtx{d: start.Add(time.Duration(c.DeadlineNs))}
+	case "deadline-lag":
+		ctx = ddlCtx{d: start.Add(time.Duration(c.DeadlineNs)), lag: true}
 	case "deadline-cancel":
 		cctx, cancel := context.WithDeadline(context.Background(), start.Add(time.Duration(c.DeadlineNs)))
 		ctx = cctx
